@@ -62,13 +62,13 @@ theorem step_sg_run (e : Env) (c : Cons.Cfg) (sigOf : SB → Sig) (s : St Sig) (
     split
     · exact ⟨[], rfl⟩
     · exact signAll_run sigOf s.sg _
-  | crash keep => exact ⟨[.crash], rfl⟩
-  | crashInInput i t j k keep =>
+  | crash w => exact ⟨[.crash], rfl⟩
+  | crashInInput i t j k w =>
     simp only [step]
     split
     · exact signCrash_run sigOf s.sg _ j k
     · exact ⟨[], rfl⟩
-  | crashInReplay t j k keep =>
+  | crashInReplay t j k w =>
     simp only [step]
     split
     · exact ⟨[], rfl⟩
